@@ -22,6 +22,18 @@ pub fn run(case: &serde_json::Value, out: &mut String) {
             Err(_) => writeln!(out, "SCHEDPANIC {}", label).unwrap(),
         }
     }
+    // the transition optimisation: start transition per type, every accepted step, the result (hook: record_transition)
+    for (label, t) in solver::verif_hooks::take_transitions().iter() {
+        let mut parts = label.split(' ');
+        let kind = parts.next().unwrap();
+        let ty = parts.next().unwrap_or("-1");
+        writeln!(out, "TREC {} {} {} {} {}", kind, ty, t.maintenance_violation(), t.maintenance_counter(), t.number_of_cycles()).unwrap();
+        for (k, c) in t.cycles_iter().enumerate() {
+            let v: Vec<String> = c.iter().map(crate::sched::vid).collect();
+            writeln!(out, "TC {} {} {} {}", k, c.maintenance_counter(), v.len(), v.join(" ")).unwrap();
+        }
+        writeln!(out, "TEND").unwrap();
+    }
     // the decoded flow tours per type (input of Schedule::from_tours), recorded by the mcf hook
     for l in solver::verif_hooks::take_mcf() {
         if l.starts_with("MCFTYPE") || l.starts_with("FTOUR") {
